@@ -128,6 +128,25 @@ def audit_sources(files=None):
     return bad
 
 
+def closure_files(prop, extra=()):
+    """.v files (relative to coq/) that Props/<prop>.v transitively requires inside the DA library"""
+    seen, todo = [], [f"theories/Props/{prop}.v"] + [e[:-1] if e.endswith(".vo") else e for e in extra]
+    while todo:
+        f = todo.pop()
+        if f in seen or not os.path.exists(os.path.join(COQ, f)):
+            continue
+        seen.append(f)
+        txt = strip_comments(open(os.path.join(COQ, f)).read())
+        for m in re.finditer(r"Require\s+(?:Import\s+|Export\s+)?(.*?)\.(?=\s|$)", txt, re.S):
+            for name in m.group(1).split():
+                if name.startswith("DA."):
+                    name = name[3:]
+                parts = name.split(".")
+                if len(parts) == 2 and parts[0] in ("Base", "Gen", "Model", "Proofs", "Props"):
+                    todo.append(f"theories/{parts[0]}/{parts[1]}.v")
+    return sorted(seen)
+
+
 def strip_comments(txt):
     out, depth, i = [], 0, 0
     instr = False
@@ -274,9 +293,15 @@ def run_case_files(name, preamble, case_terms, checker, per_file=300, timeout=90
 
 def load_known():
     p = os.path.join(ROOT, "known_findings.json")
-    if not os.path.exists(p):
-        return {"findings": [], "fixed": []}
-    return json.load(open(p))
+    k = json.load(open(p)) if os.path.exists(p) else {"findings": [], "fixed": []}
+    d = os.path.join(ROOT, "known_findings.d")          # per-property fragments (committed, read-only at run time)
+    if os.path.isdir(d):
+        for n in sorted(os.listdir(d)):
+            if n.endswith(".json"):
+                frag = json.load(open(os.path.join(d, n)))
+                k["findings"] += frag.get("findings", [])
+                k["fixed"] += frag.get("fixed", [])
+    return k
 
 
 class Check:
@@ -319,7 +344,7 @@ class Check:
                     ok_all = False
                     err = extract_error(log)
                     self.proof_break(f"Coq build of the closure of Props/{self.prop}.v failed: {err[:300]}", err)
-            bad = audit_sources()
+            bad = audit_sources(closure_files(self.prop, extra_vo))       # the files this property's theorems depend on
             if bad:
                 ok_all = False
                 self.proof_break("forbidden construct in development: " + "; ".join(bad[:5]), "\n".join(bad))
